@@ -682,6 +682,8 @@ class BGP(protocol.Protocol):
                     value = copy.deepcopy(attr)
                     value14 = value[14]
                     del value14['nlri']
+                    # what the same message withdraws is not an attribute of this route
+                    value.pop(15, None)
                     key = "{"
                     for k in sorted(prefix.keys()):
                         key += '"' + str(k) + '"'
@@ -724,6 +726,8 @@ class BGP(protocol.Protocol):
                     value = copy.deepcopy(attr)
                     value14 = value[14]
                     del value14['nlri']
+                    # what the same message withdraws is not an attribute of this route
+                    value.pop(15, None)
                     key = "{"
                     for k in sorted(prefix.keys()):
                         if k == 'label':
@@ -805,6 +809,8 @@ class BGP(protocol.Protocol):
                     value = copy.deepcopy(attr)
                     value14 = value[14]
                     del value14['nlri']
+                    # what the same message withdraws is not an attribute of this route
+                    value.pop(15, None)
                     key = "{"
                     for k in sorted(prefix.keys()):
                         key += '"' + str(k) + '"'
@@ -830,6 +836,8 @@ class BGP(protocol.Protocol):
                     value = copy.deepcopy(attr)
                     value14 = value[14]
                     del value14['nlri']
+                    # what the same message withdraws is not an attribute of this route
+                    value.pop(15, None)
                     key = "{"
                     for k in sorted(prefix.keys()):
                         if k == 'label':
